@@ -14,34 +14,42 @@
 EXTENDS Naturals, Integers, Sequences, FiniteSets, TLC, Json, IOUtils
 CONSTANTS Export, MaxOps, GuardRelease, Limits
 
-VARIABLES lim, tmp, now, live, n, hist
-vars == <<lim, tmp, now, live, n, hist>>
-view == <<lim, tmp, now, live, n>>
-Init == lim \in Limits /\ tmp = 0 /\ now = 0 /\ live = 0 /\ n = 0 /\ hist = <<[op |-> "limit", k |-> lim, admitted |-> 0, live |-> 0]>>
+VARIABLES lim, tmp, now, live, n, hist, unl
+vars == <<lim, tmp, now, live, n, hist, unl>>
+view == <<lim, tmp, now, live, n, unl>>
+Init == lim \in Limits /\ tmp = 0 /\ now = 0 /\ live = 0 /\ n = 0 /\ unl = 0 /\ hist = <<[op |-> "limit", k |-> lim, admitted |-> 0, live |-> 0]>>
 
 Rec(op, k, adm) == n < MaxOps /\ n' = n + 1 /\ hist' = Append(hist, [op |-> op, k |-> k, admitted |-> adm, live |-> live'])
 
 \* one connect: take; a rejected connection is closed, which runs PostDisconnect
+\* lim = 0 models "no connection limit configured" (the limiter does not exist: nobody takes a slot);
+\* SetLimit then installs a fresh limiter while sessions admitted without one are still alive (unl of them)
 ConnectEffect(t, nw) ==
-  IF t + 1 <= lim THEN <<t + 1, nw + 1, 1>>                               \* admitted
+  IF lim = 0 THEN <<t, nw, 1>>
+  ELSE IF t + 1 <= lim THEN <<t + 1, nw + 1, 1>>                          \* admitted
   ELSE IF GuardRelease THEN <<t, nw, 0>> ELSE <<t - 1, nw - 1, 0>>      \* rejected (and, unrepaired, a slot released)
 Connect == LET r == ConnectEffect(tmp, now) IN
-           /\ tmp' = r[1] /\ now' = r[2] /\ live' = live + r[3] /\ UNCHANGED lim /\ Rec("connect", 1, r[3])
+           /\ tmp' = r[1] /\ now' = r[2] /\ live' = live + r[3] /\ unl' = (IF lim = 0 THEN unl + r[3] ELSE unl) /\ UNCHANGED lim /\ Rec("connect", 1, r[3])
 Burst(k) == \* k connects one after the other (the code's atomics serialise them)
            LET r1 == ConnectEffect(tmp, now)
                r2 == ConnectEffect(r1[1], r1[2])
                r3 == ConnectEffect(r2[1], r2[2])
                adm == r1[3] + r2[3] + (IF k = 3 THEN r3[3] ELSE 0)
                fin == IF k = 3 THEN r3 ELSE r2
-           IN /\ tmp' = fin[1] /\ now' = fin[2] /\ live' = live + adm /\ UNCHANGED lim /\ Rec("burst", k, adm)
-End(kind) == /\ live > 0 /\ live' = live - 1 /\ tmp' = tmp - 1 /\ now' = now - 1 /\ UNCHANGED lim /\ Rec(kind, 1, 0)
-Raise == /\ lim < 3 /\ lim' = lim + 1 /\ UNCHANGED <<tmp, now, live>> /\ Rec("raise", lim + 1, 0)
-Next == Connect \/ Burst(2) \/ Burst(3) \/ End("disc") \/ End("close") \/ Raise
+           IN /\ lim # 0 /\ tmp' = fin[1] /\ now' = fin[2] /\ live' = live + adm /\ UNCHANGED <<lim, unl>> /\ Rec("burst", k, adm)
+\* sessions end oldest first; one admitted without a limiter holds no slot and releases none
+End(kind) == /\ live > 0 /\ live' = live - 1
+             /\ IF unl > 0 THEN unl' = unl - 1 /\ UNCHANGED <<tmp, now>>
+                           ELSE tmp' = tmp - 1 /\ now' = now - 1 /\ UNCHANGED unl
+             /\ UNCHANGED lim /\ Rec(kind, 1, 0)
+Raise == /\ lim > 0 /\ lim < 3 /\ lim' = lim + 1 /\ UNCHANGED <<tmp, now, live, unl>> /\ Rec("raise", lim + 1, 0)
+SetLimit(k) == /\ lim = 0 /\ lim' = k /\ UNCHANGED <<tmp, now, live, unl>> /\ Rec("raise", k, 0)
+Next == Connect \/ Burst(2) \/ Burst(3) \/ End("disc") \/ End("close") \/ Raise \/ SetLimit(1) \/ SetLimit(2)
 Spec == Init /\ [][Next]_vars
 
 \* C18: never more admitted sessions than the limit; the counters describe the admitted sessions exactly
-NeverOver   == live <= lim
-CountsExact == tmp = live /\ now = live
+NeverOver   == lim > 0 => live - unl <= lim
+CountsExact == tmp = live - unl /\ now = live - unl
 Emit == Export = "" \/ Serialize(ToJson([steps |-> hist']) \o "\n", Export,
           [format |-> "TXT", charset |-> "UTF-8", openOptions |-> <<"WRITE", "CREATE", "APPEND">>]).exitValue = 0
 =============================================================================
